@@ -54,10 +54,13 @@ MANIFEST = {
             "proved with a witness that replays on the implementation (open finding); the former split of equal URIs into two "
             "object keys (upper-case scheme) is fixed and kept as a counter-model of the pinned tree. The "
             "model is tied to the code by lock-step differential execution against the real RepositoryManager and by evaluating "
-            "the theorem predicates on the implementation's own observations.",
+            "the theorem predicates on the implementation's own observations. Publisher removal as the SOURCE orders its two persisted "
+            "store calls (regenerated from pubd/manager.rs on every run): interrupted after any number of them and submitted again it ends in "
+            "exactly the state of an undisturbed removal (removal_recoverable); the other order orphans the objects (access_first_orphans); "
+            "exercised by the pubd op rmpubf (removal with one failing key-value write + retry).",
     "note": "Kernel-checked theorems are about the model; the tie is seeded differential execution (replies, lists, stats, "
             "serialised aggregate state through a cfg-gated export). Crypto (CMS validation of RFC 8181 messages) is not part of "
             "this check (C12). Hash-map order is canonicalised by sorting on both sides.",
     "technique": "Lean 4 proof (induction over elements/requests, invariants, iff-characterisations, witnesses by decide) + "
-                 "correspondence check with oracle on the implementation's trace",
+                 "correspondence check with oracle on the implementation's trace + source translator (order of the persisted store calls of remove_publisher; removal_recoverable over the generated order)",
 }
